@@ -11,6 +11,7 @@
 -/
 import PsutilModel.Proofs.C17Users
 import PsutilModel.Proofs.C17Parts
+import PsutilModel.Proofs.C17Ext
 import PsutilModel.Model.C17Gen
 namespace Psutil.C17
 open Spec
@@ -562,5 +563,205 @@ theorem C17_iff_flag_names (flags : Nat) :
     documentation of `net_if_stats()`, and `isup` is derived from the `running` flag. -/
 theorem C17_iff_documented :
     (∀ e ∈ iffLinux, e.2 ∈ Gen.C17.iffDocNames) ∧ Gen.C17.isupFlag = "running" := by decide
+
+/-! ## net_if_addrs(): getifaddrs() list → rows (extension round) -/
+
+/-- translator obligation: psutil_convert_ipaddr switches on AF_INET / AF_INET6 / AF_PACKET with
+    addrlen = sizeof(sockaddr_in) / sizeof(sockaddr_in6), gives getnameinfo `sizeof(buf)`, reads
+    sll_halen / sll_addr; psutil_net_if_addrs takes the family from ifa_addr, the netmask from
+    ifa_netmask, fills broadcast under IFF_BROADCAST else ptp under IFF_POINTOPOINT, and builds
+    the tuple in the documented order -/
+theorem ncfg_good : ncfg.Good := by
+  refine ⟨?_, ?_, ?_, ?_, ?_, ?_, ?_, ?_, ?_, ?_, ?_, ?_⟩ <;> decide
+
+/-- **C17_ifaddrs_rows** — for every list getifaddrs() can return (any names, flags words,
+    NULL pointers anywhere, any INET/INET6 texts, hardware addresses of any length that fit their
+    object): the rows are exactly (name, family, address, netmask, broadcast iff IFF_BROADCAST, ptp
+    iff IFF_POINTOPOINT and not broadcast) of the entries that have a showable address. -/
+theorem C17_ifaddrs_rows (c : NCfg) (hg : c.Good) (mac : MCfg) (hm : mac.Good) (es : List IfEntry)
+    (h : ∀ e ∈ es, EntryWF e) : ifRows c mac es = Spec.ifRows (macFormat mac) es := by
+  unfold ifRows Spec.ifRows
+  induction es with
+  | nil => rfl
+  | cons e es ih =>
+    simp only [List.filterMap_cons, ifRow_good c hg mac hm.buf e (h e (by simp))]
+    rw [ih (fun x hx => h x (by simp [hx]))]
+
+theorem C17_ifaddrs_rows_current (es : List IfEntry) (h : ∀ e ∈ es, EntryWF e) :
+    ifRows ncfg mcfg es = Spec.ifRows (macFormat mcfg) es :=
+  C17_ifaddrs_rows ncfg ncfg_good mcfg mcfg_good es h
+
+/-- **C17_ifaddrs_reads_in_object** — every extent psutil reads (or tells libc to read) of a
+    sockaddr of the list lies inside the object libc allocated for it. -/
+theorem C17_ifaddrs_reads_in_object (c : NCfg) (hg : c.Good) (e : IfEntry) (hw : EntryWF e) :
+    ∀ r ∈ ifReads c e, r.1 ≤ r.2 := by
+  intro r hr
+  unfold ifReads at hr
+  cases ha : e.addr with
+  | none => simp [ha] at hr
+  | some a =>
+    obtain ⟨wa, wn, wu⟩ := hw.addr a ha
+    simp only [ha, List.mem_append] at hr
+    have key : ∀ (o : Option Sock), optWF a.fam o →
+        r ∈ (match o with
+          | none => []
+          | some s => (convertReads c o a.fam).map (fun x => (x, s.store.length))) → r.1 ≤ r.2 := by
+      intro o ho hm
+      cases o with
+      | none => simp at hm
+      | some s =>
+        simp only [List.mem_map] at hm
+        obtain ⟨x, hx, rfl⟩ := hm
+        exact convertReads_good c hg a.fam s (ho s rfl) x hx
+    rcases hr with (h1 | h2) | h3
+    · exact key (some a) (by intro s hs; cases hs; exact wa) h1
+    · exact key e.netmask wn h2
+    · exact key e.ifu wu h3
+
+/-- non-vacuity: a loopback-style entry honours the contract and yields its row -/
+example : ifRows ncfg mcfg
+    [{ name := [108, 111], flags := 73,
+       addr := some ⟨2, [2, 0, 0, 0, 127, 0, 0, 1, 0, 0, 0, 0, 0, 0, 0, 0], 16, some [49, 50, 55, 46, 48, 46, 48, 46, 49]⟩,
+       netmask := none, ifu := none }]
+    = [[.str [108, 111], .int 2, .str [49, 50, 55, 46, 48, 46, 48, 46, 49], .none, .none, .none]] := by decide
+
+/-! ## entry points that copy a NIC name into `struct ifreq` -/
+
+/-- translator obligation: IFNAMSIZ = 16, the running bit is IFF_RUNNING, and each of the four
+    entry points that hand `&ifr` to ioctl() copies the name only through
+    `PSUTIL_STRNCPY(ifr.ifr_name, nic_name, sizeof(ifr.ifr_name))` -/
+theorem qcfg_good : qcfg.ifnamsiz = 16 ∧ qcfg.runningBit = 64
+    ∧ Gen.C17.ifreqCopies.length = 4 ∧ Gen.C17.ifreqCopies.all (·.2) = true := by decide
+
+/-- **C17_ifr_name_bounded** — for every NIC name (any length, any bytes): every store of the copy
+    is inside `ifr_name[IFNAMSIZ]` and the ioctl sees the name cut to IFNAMSIZ-1 bytes, terminated. -/
+theorem C17_ifr_name_bounded (s : SCfg) (hs : s.Good) (q : QCfg) (hq : 0 < q.ifnamsiz) (name : Bytes) :
+    ifrInBounds s q name = true ∧ ifrName s q name = boundedCopy name q.ifnamsiz := by
+  obtain ⟨h1, _, h3⟩ := C17_strncpy_terminated s hs name (List.replicate q.ifnamsiz 170) q.ifnamsiz hq (by simp)
+  refine ⟨?_, h3⟩
+  simp only [ifrInBounds, List.all_eq_true, decide_eq_true_eq]
+  exact h1
+
+theorem C17_ifr_name_bounded_current (name : Bytes) :
+    ifrInBounds scfg qcfg name = true ∧ ifrName scfg qcfg name = boundedCopy name 16 :=
+  C17_ifr_name_bounded scfg scfg_good qcfg (by decide) name
+
+/-- **C17_ifr_running** — `net_if_is_running` answers bit 6 (IFF_RUNNING) of the 16-bit flags word -/
+theorem C17_ifr_running (q : QCfg) (hq : q.runningBit = 64) (flags : Nat) :
+    isRunning q flags = (flags % 65536 / 64 % 2 == 1) := by
+  unfold isRunning
+  rw [hq]
+  exact bitSet_two_pow (flags % 65536) 6
+
+/-! ## disk_partitions(): the C loop over getmntent -/
+
+/-- translator obligation: the line buffer in effect (libc's own for `getmntent`, the caller's
+    for `getmntent_r`) holds at least 4096 bytes, and the tuple is (fsname, dir, type, opts) -/
+theorem dcfg_good : dcfg.Good := ⟨by decide, by decide⟩
+
+/-- **C17_mntent_line_whole** — every mounts line of up to 4095 bytes reaches the field decoder
+    complete (nothing cut, nothing dropped), with or without a final newline.  (The kernel can
+    print longer lines; what libc does with them is its own: `mntLibcBuf` is measured.) -/
+theorem C17_mntent_line_whole (c : DCfg) (hg : c.Good) (l : Bytes) (term : Bool) (h : l.length ≤ 4095) :
+    (fgetsLine c.effBuf l term).1 = l :=
+  fgetsLine_whole c.effBuf l term (by have := hg.buf; omega)
+
+theorem C17_mntent_line_whole_current (l : Bytes) (term : Bool) (h : l.length ≤ 4095) :
+    (fgetsLine dcfg.effBuf l term).1 = l := C17_mntent_line_whole dcfg dcfg_good l term h
+
+/-- a `getmntent_r` with a 1024-byte buffer of its own cuts every line of 1023 bytes or more at
+    1023 bytes (seeded change C17-1) -/
+theorem C17_mntent_small_buffer_counterexample (l : Bytes) (h : 1023 ≤ l.length) :
+    ((fgetsLine ({ dcfg with reentrant := true, userBuf := 1024 } : DCfg).effBuf l true).1).length = 1023 := by
+  have e : ({ dcfg with reentrant := true, userBuf := 1024 } : DCfg).effBuf = 1024 := rfl
+  have h2 : ¬ l.length + 2 ≤ 1024 := by omega
+  rw [e]
+  simp only [fgetsLine, if_true, h2, if_false, List.length_take]
+  omega
+
+/-- **C17_mntent_tuple** — the tuple is (device, mount point, type, options) of the entry -/
+theorem C17_mntent_tuple (c : DCfg) (hg : c.Good) (m : Mnt) : mntTuple c m = [m.dev, m.dir, m.typ, m.opts] := by
+  simp [mntTuple, hg.order]
+
+/-- a kernel-style line with escapes decodes to the entry it was rendered from -/
+example : mntLine dcfg.effBuf (renderMnt ⟨[47, 100, 32, 97], [47, 109, 92], [101, 120, 116, 52], [114, 119, 9]⟩)
+    = some ⟨[47, 100, 32, 97], [47, 109, 92], [101, 120, 116, 52], [114, 119, 9]⟩ := by decide
+
+/-- FULL statement of the field decoding (NOT proved in this round — `_partial` is the concrete
+    `example` above plus the `mntrt` correspondence family, which checks it on random entries
+    against the Lean model AND the real extension): every entry with non-empty, NUL-free fields
+    whose device does not start with '#', rendered the way the kernel prints it, decodes to
+    itself whenever the line fits the buffer. -/
+def C17_mntent_roundtrip_Full : Prop :=
+  ∀ (B : Nat) (m : Mnt), m.dev ≠ [] → m.dir ≠ [] → m.typ ≠ [] → m.opts ≠ [] → m.dev.head? ≠ some 35 →
+    (∀ c ∈ m.dev ++ m.dir ++ m.typ ++ m.opts, c ≠ 0) → (renderMnt m).length < B →
+    mntLine B (renderMnt m) = some m
+
+/-! ## linux_sysinfo(): format units vs member widths -/
+
+/-- translator obligation: "(kkkkkkI)" over (totalram, freeram, bufferram, sharedram, totalswap,
+    freeswap, mem_unit), whose widths in <linux/sysinfo.h> are 64 ×6 and 32 -/
+theorem ycfg_good : ycfg.Good := ⟨by decide, by decide, by decide, by decide⟩
+
+/-- **C17_sysinfo_tuple** — for every struct the kernel can fill in, each slot is the member's
+    value: nothing truncated, nothing indeterminate. -/
+theorem C17_sysinfo_tuple (c : YCfg) (hg : c.Good) (info : String → Nat) (hw : SysinfoWF info) :
+    C17.sysinfoTuple c info = Spec.sysinfoTuple info := by
+  obtain ⟨h64, h32⟩ := hw
+  have w := hg.wide
+  simp only [C17.sysinfoTuple, Spec.sysinfoTuple, hg.format, hg.fields, sysinfoOrder, List.zip_cons_cons,
+    List.zip_nil_right, List.map_cons, List.map_nil, hg.unit,
+    w "totalram" (by simp), w "freeram" (by simp), w "bufferram" (by simp), w "sharedram" (by simp),
+    w "totalswap" (by simp), w "freeswap" (by simp)]
+  rw [buildSlot_k _ (h64 "totalram" (by simp [sysinfoOrder]) (by decide)),
+      buildSlot_k _ (h64 "freeram" (by simp [sysinfoOrder]) (by decide)),
+      buildSlot_k _ (h64 "bufferram" (by simp [sysinfoOrder]) (by decide)),
+      buildSlot_k _ (h64 "sharedram" (by simp [sysinfoOrder]) (by decide)),
+      buildSlot_k _ (h64 "totalswap" (by simp [sysinfoOrder]) (by decide)),
+      buildSlot_k _ (h64 "freeswap" (by simp [sysinfoOrder]) (by decide)),
+      buildSlot_I _ h32]
+
+theorem C17_sysinfo_tuple_current (info : String → Nat) (hw : SysinfoWF info) :
+    C17.sysinfoTuple ycfg info = Spec.sysinfoTuple info := C17_sysinfo_tuple ycfg ycfg_good info hw
+
+/-- a 32-bit unit on a 64-bit member loses the upper half; a 64-bit unit on `mem_unit` reads
+    indeterminate bits -/
+theorem C17_sysinfo_wrong_unit_counterexample :
+    C17.sysinfoTuple { ycfg with format := "IkkkkkI".toList } (fun f => if f = "totalram" then 2 ^ 32 else 1)
+      ≠ Spec.sysinfoTuple (fun f => if f = "totalram" then 2 ^ 32 else 1)
+    ∧ (C17.sysinfoTuple { ycfg with format := "kkkkkkk".toList } (fun _ => 1)).getLast? = some .ub := by
+  decide
+
+/-! ## getpriority(): errno hygiene -/
+
+theorem gcfg_good : gcfg.resetBefore = true := by decide
+
+/-- translator obligation: every function of the Linux build that tests errno against 0 either
+    resets it first, or is not an entry point and has no call site in the Linux build -/
+theorem errno_discriminators_good :
+    Gen.C17.errnoDiscriminators.all (fun p => p.2.1 || (!p.2.2.1 && p.2.2.2 == 0)) = true := by decide
+
+/-- **C17_getpriority_errno_independent** — with errno cleared before the call, the result is the
+    kernel's answer for EVERY errno value on entry: a nice value (−1 included) is returned, an
+    error is raised with the kernel's code. -/
+theorem C17_getpriority_errno_independent (c : GCfg) (hg : c.resetBefore = true) (errnoIn : Nat)
+    (k : Except Nat Int) (hk : ∀ code, k = .error code → code ≠ 0) :
+    C17.getPriority c errnoIn k = Spec.getPriority k := by
+  cases k with
+  | ok v => simp [C17.getPriority, Spec.getPriority, hg]
+  | error code =>
+    have := hk code rfl
+    simp [C17.getPriority, Spec.getPriority, this]
+
+theorem C17_getpriority_errno_independent_current (e1 e2 : Nat) (k : Except Nat Int)
+    (hk : ∀ code, k = .error code → code ≠ 0) :
+    C17.getPriority gcfg e1 k = C17.getPriority gcfg e2 k := by
+  rw [C17_getpriority_errno_independent gcfg gcfg_good e1 k hk, C17_getpriority_errno_independent gcfg gcfg_good e2 k hk]
+
+/-- without the reset a stale ESRCH turns a legitimate nice value into OSError — with the
+    `priority == -1 &&` form for nice −1, with the plain `errno != 0` form for any value -/
+theorem C17_getpriority_stale_errno_counterexample :
+    C17.getPriority { resetBefore := false, testMinusOne := true } 3 (.ok (-1)) = .osError 3
+    ∧ C17.getPriority { resetBefore := false, testMinusOne := false } 3 (.ok 5) = .osError 3 := by decide
 
 end Psutil.C17
